@@ -11,8 +11,14 @@
 
 use std::io;
 use std::io::Write;
+#[cfg(cadence_verif)]
+use cadence_dsim::net::UnixDatagram;
+#[cfg(not(cadence_verif))]
 use std::os::unix::net::UnixDatagram;
 use std::path::{Path, PathBuf};
+#[cfg(cadence_verif)]
+use cadence_dsim::sync::Mutex;
+#[cfg(not(cadence_verif))]
 use std::sync::Mutex;
 
 use crate::io::MultiLineWriter;
